@@ -1,8 +1,8 @@
 CONSTANTS
-  Streams = {0}
-  Paired = FALSE
+  Streams = {0, 1}
+  Paired = TRUE
   MaxOps = 6
-  MaxWire = 3
+  MaxWire = 2
   BarrierBug = FALSE
   ResetLoose = FALSE
   LoseFlagInClosing = FALSE
